@@ -259,16 +259,24 @@ func (s *clientSocket) Connect() {
 }
 
 func (s *clientSocket) Disconnect() {
-	if s.connectedOrConnectPending() {
+	// The state is changed before the DISCONNECT packet is sent: from now on, what is emitted
+	// waits in the send buffer. A packet that an `Emit` on another goroutine sent behind the
+	// DISCONNECT packet would be addressed to a namespace the connection has left. The server
+	// closes the whole connection then, with the sockets of the other namespaces.
+	s.stateMu.Lock()
+	connected := s.state == clientSocketConnStateConnected || s.state == clientSocketConnStateConnectPending
+	if connected {
+		s.state = clientSocketConnStateDisconnected
+	}
+	s.stateMu.Unlock()
+
+	if connected && s.manager.connected() {
 		s.debug.Log("Performing disconnect", s.namespace)
 		s.sendControlPacket(parser.PacketTypeDisconnect, nil)
 	}
 
 	s.destroy()
 
-	s.stateMu.RLock()
-	connected := s.state == clientSocketConnStateConnected || s.state == clientSocketConnStateConnectPending
-	s.stateMu.RUnlock()
 	if connected {
 		s.onClose(ReasonIOClientDisconnect)
 	}
